@@ -19,8 +19,8 @@ PID = "C08"
 RULE = ("states = (connected sub-tissue, k, resampled?) reached by adding one adjacent cell at a time from every single cell, "
         "de-duplicated on the cell set; non-trivial = has at least one junction; distinct classes = distinct "
         "(cells, interfaces, internal interfaces, k, ne) signatures")
-BOUND = {"quick": "all connected sub-tissues of an 8..9-cell Voronoi base and of square3x3/brick (fixpoint), k in {0,1,2,5} and mixed per-interface counts (incl. a two-sided cell with one straight side), ne in {2,6}; 6 parser meshes as parsed and resampled",
-         "thorough": "all connected sub-tissues of 11- and 12-cell bases and the hand-built maps (fixpoint), k in {0,1,2,5,15}, ne in {2,6}; 13 parser meshes (generated dumps, WKT, tessellations, rasters, shipped dumps and skeleton) as parsed and resampled"}
+BOUND = {"quick": "all connected sub-tissues of an 8..9-cell Voronoi base and of square3x3/brick (fixpoint), k in {0,1,2,5} and mixed per-interface counts (incl. a two-sided cell with one straight side), ne in {2,6}; 12 parser meshes as parsed and resampled (generated dump, WKT, tessellation, rasterised skeletons: plain, parsed with reduce_amount, with one staircase corner, with a detached pair of cells; pinched WKT polygons; a shipped dump)",
+         "thorough": "all connected sub-tissues of 11- and 12-cell bases and the hand-built maps (fixpoint), k in {0,1,2,5,15}, ne in {2,6}; 44 parser meshes (generated dumps, WKT, tessellations, rasters, shipped dumps and skeleton) as parsed and resampled"}
 ASSUMPTIONS = ["cell membership of a vertex is taken from the cells' vertex cycles (reference), not from Vertex.ownCells",
                "sub-tissues are connected through shared interfaces; tissues whose cells touch only at a point are not generated"]
 REQUIRED_TAGS = {"all": ["has_internal", "has_external", "single_cell", "resampled", "lookup_checked", "parser:se", "parser:wkt", "parser:tess", "parser:raster", "parser:se_file"]}
@@ -264,7 +264,11 @@ def build(tier, seed):
                 SubTissues("lens", [1, 2, 4, ["mod3", 0, 2, 1], ["mod3", 3, 0, 0], ["mod3", 1, 0, 3]], [2, 3]),
                 SubTissues("v4x4p%d" % (seed + 1), [1, 3], [3]),
                 ParserMeshes([["se", "v5x4", None, 2], ["se", "v5x5", None, 0], ["wkt", "v5x4", None, 1], ["tess", 5, 4, seed + 1, 40.0],
-                              ["raster", [5, 4, 15, 0, 40], True], ["se_file", REPO + "/tests/data/furrow_gauss_velocity/stage0.dmp"]], [3, 6])]
+                              ["raster", [5, 4, 15, 0, 40], True], ["se_file", REPO + "/tests/data/furrow_gauss_velocity/stage0.dmp"],
+                              # skeletons parsed with reduce_amount (collinear pixels dropped while parsing: edges are re-pointed and removed),
+                              # with one staircase corner (the parser merges it), with a detached pair of cells; pinched WKT polygons
+                              ["raster", [5, 4, 15, 0, 40], True, "reduce"], ["raster", [4, 4, 0, 0, 30], True, "reduce"], ["raster_corner", [5, 4, 15, 0, 40], 7],
+                              ["raster_corner", [5, 4, 15, 0, 40], 101], ["raster_iso", [5, 4, 15, 0, 40], "two"], ["wkt_pinch", 0.004, [800.0, 600.0]]], [3, 6])]
     return [SubTissues("v5x5", [0, 1, 2, 5, 15, ["mod3", 0, 2, 1], ["mod3", 16, 0, 3]], [2, 6]),
             SubTissues("v6x5", [0, 2, 5], [2, 6]),
             SubTissues("brick4x3", [0, 1, 2], [2]),
@@ -275,4 +279,7 @@ def build(tier, seed):
             ParserMeshes([["se", "v5x4", None, 2], ["se", "v5x5", None, 0], ["se", "v6x5", None, 5], ["wkt", "v5x4", None, 1], ["wkt", "v5x5", None, 3],
                           ["tess", 5, 4, seed + 1, 40.0], ["tess", 7, 6, seed + 2, 1000.0], ["raster", [5, 4, 15, 0, 40], True], ["raster", [6, 5, 15, 1, 44], True],
                           ["se_file", REPO + "/tests/data/furrow_gauss_velocity/stage0.dmp"], ["se_file", REPO + "/tests/data/12_12/step_20.dmp"],
-                          ["se_file", REPO + "/tests/data/initial_furrow.dmp"], ["skeleton", REPO + "/tests/data/test_nonzero.tif"]], [2, 3, 6, 12])]
+                          ["se_file", REPO + "/tests/data/initial_furrow.dmp"], ["skeleton", REPO + "/tests/data/test_nonzero.tif"],
+                          ["raster", [5, 4, 15, 0, 40], True, "reduce"], ["raster", [4, 4, 0, 0, 30], True, "reduce"], ["raster", [6, 5, 15, 1, 44], True, "reduce"],
+                          ["skeleton", REPO + "/tests/data/experimental/exp_1.tif", "reduce"], ["raster_iso", [5, 4, 15, 0, 40], "two"], ["wkt_pinch", 0.004, [800.0, 600.0]]]
+                         + [["raster_corner", [5, 4, 15, 0, 40], i] for i in range(0, 220, 9)], [2, 3, 6, 12])]
